@@ -1,4 +1,16 @@
 import Xo.LayR
+import Xo.Drv.LayP
+import Xo.Model.Assign
+import Xo.Drv.Util
+/-! line-protocol driver of the executable layout model (component `lay`): one buffer, named types and objects
+
+  buf <cap> <align> | fill <off> <n> <byte> | alloc <n> | free <off> <n> | type <name> <sexp>
+  new <type> <handle> <value-sexp>        → `off <o> size <s> cap <c> mem <hex of the whole buffer>`
+  deep <handle> <path>                    → `val <canonical deep value>` | `err <class>`
+  caches <handle> <path>                  → structure a view caches
+  set <handle> <path> <value-sexp>        → `ok|err <class> cap <c> mem <hex>`  (image also on the error path)
+-/
+namespace Drv.LayD
 open CGen LayM
 structure St where
   types : List (String × Ty) := []
@@ -38,7 +50,22 @@ def step (s : St) (line : String) : St × String :=
     match s.types.lookup tname, (parseS (tokenize (" ".intercalate rest))).bind (fun x => vinOfS x.1) with
     | some t, some v =>
       let (o, b) := construct t v s.buf
-      ({ s with buf := b, objs := (hname, (t, o)) :: s.objs }, s!"off {o} size {vsize t v} cap {b.alloc.capacity} mem {hexOf b.mem}")
+      -- the proof model (`Lay`) on the same case: same size, same bytes, and its view reads the value back
+      let pm : Option String :=
+        match Drv.LayP.tyP t, Drv.LayP.valP t v with
+        | some tp, some vp =>
+          let (o', b0) := allocate s.buf (Lay.vsize tp vp)
+          let img := Drv.LayP.writeP tp vp o' b0.mem
+          if Lay.vsize tp vp != vsize t v then some s!"PROOF-MODEL-DIFFERS size {Lay.vsize tp vp}"
+          else if img != b.mem.toList then some "PROOF-MODEL-DIFFERS bytes"
+          else if Drv.LayP.showP t (Lay.readD tp img o') != deep b.mem t o then
+            some s!"PROOF-MODEL-DIFFERS read {Drv.LayP.showP t (Lay.readD tp img o')}"
+          else none
+        | _, _ => none
+      match pm with
+      | some e => ({ s with buf := b, objs := (hname, (t, o)) :: s.objs }, e)
+      | none =>
+      ({ s with buf := b, objs := (hname, (t, o)) :: s.objs }, s!"off {o} size {vsize t v} cap {b.alloc.capacity} mem {LayM.hexOf b.mem}")
     | _, _ => (s, "bad-op")
   | ["deep", h, path] =>
     match s.objs.lookup h with
@@ -63,14 +90,24 @@ def step (s : St) (line : String) : St × String :=
       match follow s.buf.mem t o (parsePath path) with
       | .ok (tt, a) =>
         let (b, e) := assign tt a v s.buf
-        ({ s with buf := b }, (match e with | none => "ok" | some e => s!"err {e.str}") ++ s!" cap {b.alloc.capacity} mem {hexOf b.mem}")
-      | .error e => (s, s!"err {e.str} cap {s.buf.alloc.capacity} mem {hexOf s.buf.mem}")
+        -- the proof model's slot assignment (scalars, strings) on the same memory
+        let pm : Bool :=
+          match tt, v with
+          | .scalar sc, .bits x => (Lay.setScalar s.buf.mem.toList a sc.size x) == b.mem.toList && e.isNone
+          | .string, .str bs =>
+            (match Lay.rewriteStr s.buf.mem.toList a (.str bs) with
+             | .ok m' => m' == b.mem.toList && e.isNone
+             | .error _ => e.isSome && b.mem.toList == s.buf.mem.toList)
+          | .string, .cap n =>
+            (match Lay.rewriteStr s.buf.mem.toList a (.cap n) with
+             | .ok m' => m' == b.mem.toList && e.isNone
+             | .error _ => e.isSome && b.mem.toList == s.buf.mem.toList)
+          | _, _ => true
+        if !pm then ({ s with buf := b }, "PROOF-MODEL-DIFFERS assign") else
+        ({ s with buf := b }, (match e with | none => "ok" | some e => s!"err {e.str}") ++ s!" cap {b.alloc.capacity} mem {LayM.hexOf b.mem}")
+      | .error e => (s, s!"err {e.str} cap {s.buf.alloc.capacity} mem {LayM.hexOf s.buf.mem}")
     | _, _ => (s, "bad-op")
   | _ => (s, "bad-op")
-partial def loop (h : IO.FS.Stream) (s : St) : IO Unit := do
-  let line ← h.getLine
-  if line.isEmpty then return ()
-  let (s', out) := step s line
-  IO.println out
-  loop h s'
-def main : IO Unit := do loop (← IO.getStdin) {}
+
+def init : St := {}
+end Drv.LayD
